@@ -150,6 +150,15 @@ func startup(user string) M {
 func send(m M) M { return M{"k": "send", "m": m} }
 
 func (g *gen) simpleErr() M {
+	if g.chance(0.15) {
+		// the handler passes on an error it got from elsewhere (end of a stream, a closed connection, a
+		// cancelled context), possibly wrapped: reported like any other
+		e := M{"base": run.SentinelTexts[g.rng.Intn(len(run.SentinelTexts))], "layers": []any{}}
+		if g.chance(0.5) {
+			e["layers"] = []any{M{"d": "wrap", "v": "copy " + g.text(5)}}
+		}
+		return e
+	}
 	if g.chance(0.3) {
 		// whatever severity the handler gives its error, a failure is reported as an ErrorResponse
 		sevs := []string{"ERROR", "FATAL", "PANIC", "WARNING", "NOTICE", "DEBUG", "INFO", "LOG"}
@@ -580,10 +589,22 @@ func (g *gen) richErr() M {
 			layers = append(layers, M{"d": "wrap", "v": g.errText()})
 		case 6:
 			line := []int{0, 1, 42, 65535, 2147483647, -1, 48, 12345}[g.rng.Intn(8)]
-			layers = append(layers, M{"d": "src", "file": g.errText(), "line": fmt.Sprint(line), "fn": g.errText()})
+			// a source location is set as a whole: an empty file or function name is still sent
+			file, fn := g.errText(), g.errText()
+			if g.chance(0.15) {
+				file = ""
+			}
+			if g.chance(0.15) {
+				fn = ""
+			}
+			layers = append(layers, M{"d": "src", "file": file, "line": fmt.Sprint(line), "fn": fn})
 		}
 	}
-	return M{"base": g.errText(), "layers": layers}
+	base := g.errText()
+	if g.chance(0.05) {
+		base = "" // an error without text: the message field is mandatory and is sent empty
+	}
+	return M{"base": base, "layers": layers}
 }
 
 func (g *gen) behC17() M {
@@ -834,7 +855,7 @@ func (g *gen) behC19() M {
 	mw := []any{}
 	for i := 0; i < nmw; i++ {
 		if g.chance(0.1) {
-			mw = append(mw, "fail")
+			mw = append(mw, g.pick("fail", "failnil"))
 		} else {
 			mw = append(mw, "ok")
 		}
